@@ -50,6 +50,11 @@ def _callee_names(stmts) -> set[str]:
                     name = name[:-1]  # AttrGraphs ~ AttrGraph (sequence constructor of the same kind)
                 if name and name not in _IGNORED_CALLS:
                     out.add(name)
+                    # … and how it is called: the two branches hand the same options to the same callee (a keyword forgotten at
+                    # one of two sibling construction sites - reverse=, exit_graph= - makes the branches behave differently)
+                    kws = sorted(k.arg for k in n.keywords if k.arg)
+                    if kws:
+                        out.add(f"{name}({', '.join(k + '=' for k in kws)})")
             elif isinstance(n, (ast.Yield, ast.YieldFrom)):
                 out.add("<yield>")
     return out
